@@ -12,7 +12,7 @@ def _helper_sum_fact_xk(n, x):
     n_fact = factorial(n)
     k_factorial = scipy.special.factorial(np.arange(n + 1))
     x_power = np.power(abs(x), np.arange(n + 1))
-    res = n_fact * np.dot(x_power, k_factorial)
+    res = n_fact * np.sum(x_power / k_factorial)
 
     return res
 
@@ -26,6 +26,10 @@ def integral_xn_exp_minus_x(n: int, a: float, b: float, alpha: float):
         return integral_xn_exp_minus_x(
             n=n, a=a, b=0.0, alpha=alpha
         ) + integral_xn_exp_minus_x(n=n, a=0.0, b=b, alpha=alpha)
+
+    if a < 0:  # here b <= 0
+        # x^n = (-1)^n |x|^n on the negative half-line: mirror image of the integral over [-b, -a]
+        return (-1) ** n * integral_xn_exp_minus_x(n=n, a=-b, b=-a, alpha=alpha)
 
     aux = alpha ** (n + 1)
 
